@@ -351,6 +351,27 @@ def run(ctx: Ctx) -> int:
                 ctx.oblige("C11.b", ok, s, why, fn=m, construct=f"{name} vs {kind} parent")
     ctx.floor("C11.b-consumers", n_cons, 3)
 
+    # the public converters hand back new objects: dict_to_namespace / namespace_to_dict do not write into what they
+    # were given (E5; lists inside the dictionary included)
+    from .effects import check_param_not_mutated
+
+    check_param_not_mutated(
+        ctx,
+        "C11.c",
+        "_namespace:dict_to_namespace",
+        "cfg_dict",
+        why_ok="dict_to_namespace converts a copy: the caller's dictionary (and the lists inside it) is left as it was",
+        why_bad="dict_to_namespace writes into the caller's dictionary or into a list inside it: after the call the dictionary holds Namespace objects, and the namespace shares its lists with it",
+    )
+    check_param_not_mutated(
+        ctx,
+        "C11.c",
+        "_namespace:namespace_to_dict",
+        "namespace",
+        why_ok="namespace_to_dict converts a copy of the namespace",
+        why_bad="namespace_to_dict writes into the namespace it was given",
+    )
+
     # ---------------- C11.d ---------------------------------------------------
     # as_dict converts containers element for element: no comprehension in it filters elements away, and a list /
     # dict is only converted when ALL its elements are namespaces (mixed containers are left as they are)
